@@ -49,7 +49,8 @@ TRUSTED = [
 ]
 ASSUMPTIONS = ["tree-shaped inputs", "max_passes and max_diffs are not exhausted during the run (default 10**7 / None)", "no nan/inf/-0.0"]
 
-HEADER = ("From DD Require Import Lfu.LfuModel DiffIO.MemoModel DiffIO.MemoShow.\nLocal Open Scope Z_scope.")
+HEADER = ("From DD Require Import Base.PyStr Base.Value Diff.Tree Diff.DiffModel Diff.DiffShow Hash.HashModel Lfu.LfuModel "
+          "DiffIO.DiffIOModel DiffIO.DiffIOShow DiffIO.MemoModel DiffIO.MemoShow DiffIO.DiffIOCache DiffIO.DiffIOCacheShow.\nLocal Open Scope Z_scope.")
 
 CACHE_SIZES = [0, 1, 2, 7, 5000]
 TUNING = [0, 1, 2, 10]
@@ -568,15 +569,20 @@ def oracle_hashes(ctx, pool, n_tasks, n_inplace, n_temp):
 # correspondence: recorded call trees against the memo model
 # ---------------------------------------------------------------------------
 
-def record_run(t1, t2, **kw):
+def record_run(t1, t2, levels=None, **kw):
+    """one run with the memoised calls recorded; `levels` (a list) additionally receives, per pairs call of
+    the root instance and in call order, (canonical t1-side level path, [(j, i)...]) from C05's recorder"""
     from deepdiff import DeepDiff
     a, b = copy.deepcopy(t1), copy.deepcopy(t2)
-    with MemoRecording() as rec:
-        with EvictionCounter() as ev:
-            try:
-                r = DeepDiff(a, b, ignore_order=True, view="tree", **kw)
-            except Exception as e:  # noqa  a raise under some cache setting is a result that depends on the cache
-                return "EXC " + repr(e), rec["roots"], ev
+    with c05.Recording() as lrec:
+        with MemoRecording() as rec:
+            with EvictionCounter() as ev:
+                try:
+                    r = DeepDiff(a, b, ignore_order=True, view="tree", **kw)
+                except Exception as e:  # noqa  a raise under some cache setting is a result that depends on the cache
+                    return "EXC " + repr(e), rec["roots"], ev
+        if levels is not None:
+            levels.extend((p, ji) for p, ji, _x, _y in c05.pairs_table(lrec))
     return c05.io_obs(r), rec["roots"], ev
 
 
@@ -634,10 +640,11 @@ def _trace_task(args):
     t1r, t2r, rep, cs, tune = args
     t1, t2 = c05.from_repr(t1r), c05.from_repr(t2r)
     kw = dict(report_repetition=rep)
-    base, pure, _ = record_run(t1, t2, **kw)
+    levels = []
+    base, pure, _ = record_run(t1, t2, levels=levels, **kw)
     got, cached, ev = record_run(t1, t2, cache_size=cs, cache_tuning_sample_size=tune, **kw)
     if isinstance(base, str) or isinstance(got, str):
-        return (t1r, t2r, rep, cs, tune, got == base, "raised", "", "", [], 0, ev["evictions"], 0, 0)
+        return (t1r, t2r, rep, cs, tune, got == base, "raised", ("", ""), "", [], 0, ev["evictions"], 0, 0)
     fp, fc = flatten(pure), flatten(cached)
     kid, vid = {}, {}
     for n in fp + fc:
@@ -656,11 +663,27 @@ def _trace_task(args):
             else:
                 consistent = "no"
     sched = schedule(cached)
-    expr = "run_trace %d %s (%s)" % (cs, core.coq_list("true" if b else "false" for b in sched), coq_prog(pure, kid, vid))
     cexpr = "check_consistent (%s)" % coq_prog(pure, kid, vid)
     log = cached_log(cached, kid, vid)
-    return (t1r, t2r, rep, cs, tune, got == base, consistent, expr, cexpr, log,
-            sum(1 for x in log if x[1] == 1), ev["evictions"], len(fp), len(sched) - sum(sched))
+    if len(levels) == len(pure) and len({repr(p) for p, _ in levels}) == len(levels):
+        # the WHOLE run through the state-passing diff model with ONE cache: the pairs call of every level is
+        # the recorded call tree of that level, the traversal order is the model's
+        pps = core.coq_list("(%s, Call %d (%s) (fun v => Ret v))" % (D.coq_pathc(p), kid[(n["kind"], n["key"])], coq_prog_body(n, kid, vid))
+                            for (p, _ji), n in zip(levels, pure))
+        decs = core.coq_list("(%s, %d, %s)" % (D.coq_pathc(p), vid[n["value"]], core.coq_list("(%d%%nat, %d%%nat)" % (j, i) for j, i in ji))
+                             for (p, ji), n in zip(levels, pure))
+        expr = "run_st %s %s %s %d %s %s %s %s %s" % (
+            D.coq_udiff_table(D.udiff_table(t1, t2)), D.coq_cfg(False, 0.33), core.coq_bool(rep), cs,
+            core.coq_list("true" if b else "false" for b in sched), pps, decs, V.to_coq(t1), V.to_coq(t2))
+        log = [got, log]
+        oexpr = "check_o %s %s %s %s %s %s" % (D.coq_udiff_table(D.udiff_table(t1, t2)), D.coq_cfg(False, 0.33), core.coq_bool(rep),
+                                                core.coq_list("(%s, %s)" % (D.coq_pathc(p), core.coq_list("(%d%%nat, %d%%nat)" % (j, i) for j, i in ji)) for p, ji in levels),
+                                                V.to_coq(t1), V.to_coq(t2))
+    else:
+        expr = "BAD-LEVELS"
+        oexpr = ""
+    return (t1r, t2r, rep, cs, tune, got == base, consistent, (expr, oexpr), cexpr, log,
+            sum(1 for x in cached_log(cached, kid, vid) if x[1] == 1), ev["evictions"], len(fp), len(sched) - sum(sched))
 
 
 def correspondence(ctx, inputs, pool):
@@ -670,9 +693,10 @@ def correspondence(ctx, inputs, pool):
             for cs, tune in (((1, 0), (2, 0), (7, 0), (5000, 0), (2, 1), (7, 2), (3, 10)) if ctx.thorough else ((1, 0), (7, 0), (5000, 0), (2, 1), (7, 2))):
                 jobs.append((repr(a), repr(b), rep, cs, tune))
     res = pool.map(_trace_task, jobs, chunksize=2)
-    cases, ccases = [], []
+    cases, ccases, ocases = [], [], []
+    seen_o = set()
     hits = evs = disabled = 0
-    for t1r, t2r, rep, cs, tune, same, consistent, expr, cexpr, log, nh, nev, ncalls, ndis in res:
+    for t1r, t2r, rep, cs, tune, same, consistent, (expr, oexpr), cexpr, log, nh, nev, ncalls, ndis in res:
         tag = {"t1": t1r, "t2": t2r, "report_repetition": rep, "cache_size": cs, "cache_tuning_sample_size": tune}
         if not same:
             ctx.fail(dict(tag, kind="settings", ignore_order=True, cache_purge_level=1, **({"raised": True} if consistent == "raised" else {})),
@@ -691,6 +715,9 @@ def correspondence(ctx, inputs, pool):
         if ncalls == 0:
             ctx.count("trace:no_lookup")
             continue
+        if expr == "BAD-LEVELS":
+            ctx.break_("correspondence", dict(tag, what="the pairs calls of the root run could not be attributed to distinct levels"))
+            continue
         hits += nh
         evs += nev
         disabled += ndis
@@ -701,11 +728,15 @@ def correspondence(ctx, inputs, pool):
             ctx.count("trace:cache_switched_off_mid_run")
         cases.append((expr, log, tag))
         ccases.append((cexpr, True, tag))
+        if (t1r, t2r, rep) not in seen_o:
+            seen_o.add((t1r, t2r, rep))
+            ocases.append((oexpr, True, tag))
     ctx.note("trace_cache_hits", hits)
     ctx.note("trace_evictions", evs)
     ctx.note("trace_disabled_lookups", disabled)
-    ctx.coq_cases("memo_trace", HEADER, cases, shard=40, label="predicted_hit_miss_pattern")
+    ctx.coq_cases("st_trace", HEADER, cases, shard=24, label="whole_run_one_cache:result+every_cache_event")
     ctx.coq_cases("memo_consistent", HEADER, ccases, shard=80, label="same_key_same_value")
+    ctx.coq_cases("st_order", HEADER, ocases, shard=12, label="t2_key_order_traversal_lists_the_entries_of_diff_io")
 
 
 # ---------------------------------------------------------------------------
